@@ -1,10 +1,9 @@
-CONSTANTS Family = "mix"
+CONSTANTS Family = "share"
  Depth = 2
 INIT Init
 NEXT Next
 INVARIANT HeapIsHistory
 INVARIANT CallsOwnNothing
 INVARIANT OnCurrentIndex
-INVARIANT SameObjectSameResult
 INVARIANT SpellingIrrelevant
 INVARIANT LastIsLastPlace
